@@ -2,6 +2,7 @@ package props
 
 import (
 	"fmt"
+	"math"
 	"strings"
 
 	jd "github.com/josephburnett/jd/v2"
@@ -209,7 +210,7 @@ func c04HashCheck(c *mon.Ctx, doc any) {
 
 var c04Opts = []OptSet{OptNone, OptSetO, OptMset, OptKeys1, OptPrecision(0), OptPrecision(1e-9), OptPrecision(0.1), OptPrecision(1.5)}
 
-var numbersNear = []any{0.0, 1.0, 1.05, 1.1, 1.1000000001, 2.0, 2.5, 3.5, -1.0, 1e-7, 100.0, 100.1}
+var numbersNear = []any{0.0, math.Copysign(0, -1), 1.0, 1.05, 1.1, 1.1000000001, 2.0, 2.5, 3.5, -1.0, 1e-7, 100.0, 100.1}
 
 func init() {
 	p := &mon.Property{
@@ -223,7 +224,7 @@ func init() {
 			"the oracle is ref.Canon (type-tagged canonical forms; sets = sorted unique member canons, recursively; multisets = sorted member canons) and ref.EqPrec for Precision",
 			"SetKeys is read as the set reading (jd's Equals under SetKeys compares whole members)",
 			"true 64-bit FNV collisions between unrelated values are out of reach of any run",
-			"-0 is not generated (jd hashes -0 and 0 differently while comparing them equal; outside the generators' alphabet)",
+			"-0 and 0 are the same number (ref.Canon normalises the sign of zero)",
 		},
 	}
 	for _, o := range c04Opts {
